@@ -619,6 +619,15 @@ def run(ck):
                 ck.count("stream:perturbed-parameters")
             else:   # the statement quantifies over full-column-rank matrices only
                 ck.count("stream:perturbation-skipped(rank-deficient)")
+        if i % 6 == 5:
+            # three or four datasets of one linked group measured on slightly shifted axes: the later datasets share an
+            # axis that is moved onto the first dataset's by the link tolerance (every aligned index must stack all of them)
+            o = ck.rng.choice([0.25, -0.25])
+            lspec = gen_scheme.rand_spec(ck.rng, force={"n_datasets": ck.rng.choice([3, 3, 4]), "n_groups": 1, "link_clp": True,
+                                                        "tol": ck.rng.choice([0.25, 0.5]), "axis_mode": "offset",
+                                                        "offsets": [0.0, o, o, ck.rng.choice([o, 0.0])]})
+            check_spec(ck, lspec, batch)
+            ck.count("stream:linked-shifted-axes")
         if i < 2:
             ck.sample({"spec": spec})
         if len(batch) >= 60:
